@@ -216,12 +216,181 @@ theorem mem_indentBlanks (indent : Nat) (c : Char) (h : c ∈ (List.replicate in
   obtain ⟨l, ⟨-, rfl⟩, hc⟩ := h
   simpa using hc
 
+/-! ## `ends_in_line_comment`: single steps of the scanner, line breaks, indentation -/
+
+theorem lcScan_outside_quote (r : List Char) : lcScan .outside ('"' :: r) = lcScan .inString r := by
+  rw [lcScan.eq_def]; simp
+
+theorem lcScan_outside_other (c : Char) (r : List Char) (h1 : c ≠ '"') (h2 : c ≠ '/') :
+    lcScan .outside (c :: r) = lcScan .outside r := by
+  rw [lcScan.eq_def]; simp only [h1, h2, if_false]
+
+theorem lcScan_outside_slash_nil : lcScan .outside ['/'] = .outside := by
+  rw [lcScan.eq_def]; simp
+
+theorem lcScan_outside_slash_slash (r : List Char) : lcScan .outside ('/' :: '/' :: r) = lcScan .lineComment r := by
+  rw [lcScan.eq_def]; simp
+
+theorem lcScan_outside_slash_star (r : List Char) : lcScan .outside ('/' :: '*' :: r) = lcScan .blockComment r := by
+  rw [lcScan.eq_def]; simp
+
+theorem lcScan_outside_slash_other (d : Char) (r : List Char) (h1 : d ≠ '/') (h2 : d ≠ '*') :
+    lcScan .outside ('/' :: d :: r) = lcScan .outside (d :: r) := by
+  rw [lcScan.eq_def]; simp [h1, h2]
+
+theorem lcScan_inString (c : Char) (r : List Char) : lcScan .inString (c :: r) =
+    if c = '\\' then lcScan .inStringEscaped r else if c = '"' then lcScan .outside r else lcScan .inString r := by
+  rw [lcScan.eq_def]
+
+theorem lcScan_inStringEscaped (c : Char) (r : List Char) : lcScan .inStringEscaped (c :: r) = lcScan .inString r := by
+  rw [lcScan.eq_def]
+
+theorem lcScan_lineComment (c : Char) (r : List Char) : lcScan .lineComment (c :: r) =
+    if c = '\n' then lcScan .outside r else lcScan .lineComment r := by
+  rw [lcScan.eq_def]
+
+theorem lcScan_blockComment (c : Char) (r : List Char) : lcScan .blockComment (c :: r) =
+    if c = '*' then lcScan .blockCommentStar r else lcScan .blockComment r := by
+  rw [lcScan.eq_def]
+
+theorem lcScan_blockCommentStar (c : Char) (r : List Char) : lcScan .blockCommentStar (c :: r) =
+    if c = '/' then lcScan .outside r else if c = '*' then lcScan .blockCommentStar r else lcScan .blockComment r := by
+  rw [lcScan.eq_def]
+
+/-- the state behind a character that means nothing to the scanner -/
+def LcState.other : LcState → LcState
+  | .inStringEscaped => .inString
+  | .blockCommentStar => .blockComment
+  | s => s
+
+/-- the state behind a line break -/
+def LcState.afterNl : LcState → LcState
+  | .inStringEscaped => .inString
+  | .blockCommentStar => .blockComment
+  | .lineComment => .outside
+  | s => s
+
+theorem lcScan_other (s : LcState) (c : Char) (r : List Char) (h1 : c ≠ '"') (h2 : c ≠ '/') (h3 : c ≠ '*') (h4 : c ≠ '\\')
+    (h5 : c ≠ '\n') : lcScan s (c :: r) = lcScan s.other r := by
+  cases s
+  · exact lcScan_outside_other c r h1 h2
+  · rw [lcScan_inString, if_neg h4, if_neg h1]; rfl
+  · rw [lcScan_inStringEscaped]; rfl
+  · rw [lcScan_lineComment, if_neg h5]; rfl
+  · rw [lcScan_blockComment, if_neg h3]; rfl
+  · rw [lcScan_blockCommentStar, if_neg h2, if_neg h3]; rfl
+
+theorem lcScan_nl (s : LcState) (r : List Char) : lcScan s ('\n' :: r) = lcScan s.afterNl r := by
+  cases s
+  · exact lcScan_outside_other _ r (by decide) (by decide)
+  · rw [lcScan_inString, if_neg (by decide), if_neg (by decide)]; rfl
+  · rw [lcScan_inStringEscaped]; rfl
+  · rw [lcScan_lineComment, if_pos rfl]; rfl
+  · rw [lcScan_blockComment, if_neg (by decide)]; rfl
+  · rw [lcScan_blockCommentStar, if_neg (by decide), if_neg (by decide)]; rfl
+
+theorem LcState.afterNl_idem (s : LcState) : s.afterNl.afterNl = s.afterNl := by cases s <;> rfl
+theorem LcState.afterNl_other (s : LcState) : s.afterNl.other = s.afterNl := by cases s <;> rfl
+
+theorem lcScan_afterNl_nls (s : LcState) (r : List Char) : ∀ (k : Nat),
+    lcScan s.afterNl (List.replicate k '\n' ++ r) = lcScan s.afterNl r
+  | 0 => rfl
+  | k + 1 => by
+    rw [List.replicate_succ, List.cons_append, lcScan_nl, LcState.afterNl_idem]
+    exact lcScan_afterNl_nls s r k
+
+/-- behind a line break blanks do not change the state (outside, inside a string, inside a block comment) -/
+theorem lcScan_afterNl_blanks (s : LcState) (r : List Char) : ∀ (bl : List Char), (∀ c ∈ bl, c = ' ') →
+    lcScan s.afterNl (bl ++ r) = lcScan s.afterNl r
+  | [], _ => rfl
+  | c :: bl, h => by
+    have : c = ' ' := h c List.mem_cons_self
+    subst this
+    rw [List.cons_append, lcScan_other _ _ _ (by decide) (by decide) (by decide) (by decide) (by decide),
+      LcState.afterNl_other]
+    exact lcScan_afterNl_blanks s r bl (fun d hd => h d (List.mem_cons_of_mem _ hd))
+
+/-- **the indentation does not matter to the scanner**: the white space the writer puts in front of a token, for an
+    offset ≥ 1, leaves the scanner in the state behind a line break -/
+theorem lcScan_ws (s : LcState) (indent n : Nat) (hn : n ≠ 0) (r : List Char) :
+    lcScan s (addWhitespace indent n ++ r) = lcScan s.afterNl r := by
+  obtain ⟨k, rfl⟩ : ∃ k, n = k + 1 := ⟨n - 1, by omega⟩
+  unfold addWhitespace
+  rw [if_neg hn, List.replicate_succ, List.cons_append, List.cons_append, lcScan_nl, List.append_assoc,
+    lcScan_afterNl_nls, lcScan_afterNl_blanks _ _ _ (mem_indentBlanks indent)]
+
+/-- what stands in front of a line break does not matter for what follows it: if two texts that start with a line break
+    are scanned alike from every state, they are scanned alike behind any text -/
+theorem lcScan_congr_nl {Y Y' : List Char} (h : ∀ s, lcScan s ('\n' :: Y) = lcScan s ('\n' :: Y')) :
+    ∀ (n : Nat) (X : List Char), X.length ≤ n → ∀ s, lcScan s (X ++ '\n' :: Y) = lcScan s (X ++ '\n' :: Y')
+  | _, [], _, s => h s
+  | 0, _ :: _, hn, _ => by simp at hn
+  | n + 1, c :: X, hn, s => by
+    have hlen : X.length ≤ n := by simpa using hn
+    have ih := lcScan_congr_nl h n X hlen
+    cases s with
+    | outside =>
+      by_cases h1 : c = '"'
+      · subst h1; simp only [List.cons_append]; rw [lcScan_outside_quote, lcScan_outside_quote]; exact ih _
+      by_cases h2 : c = '/'
+      · subst h2
+        cases X with
+        | nil =>
+          simp only [List.cons_append, List.nil_append]; rw [lcScan_outside_slash_other _ _ (by decide) (by decide),
+            lcScan_outside_slash_other _ _ (by decide) (by decide)]
+          exact h _
+        | cons d X' =>
+          have hlen' : X'.length ≤ n := by simp at hlen; omega
+          by_cases h3 : d = '/'
+          · subst h3
+            simp only [List.cons_append]; rw [lcScan_outside_slash_slash, lcScan_outside_slash_slash]
+            exact lcScan_congr_nl h n X' hlen' _
+          by_cases h4 : d = '*'
+          · subst h4
+            simp only [List.cons_append]; rw [lcScan_outside_slash_star, lcScan_outside_slash_star]
+            exact lcScan_congr_nl h n X' hlen' _
+          simp only [List.cons_append]; rw [lcScan_outside_slash_other _ _ h3 h4,
+            lcScan_outside_slash_other _ _ h3 h4]
+          exact ih _
+      · simp only [List.cons_append]; rw [lcScan_outside_other _ _ h1 h2, lcScan_outside_other _ _ h1 h2]; exact ih _
+    | inString =>
+      simp only [List.cons_append]; rw [lcScan_inString, lcScan_inString]
+      split
+      · exact ih _
+      · split <;> exact ih _
+    | inStringEscaped => simp only [List.cons_append]; rw [lcScan_inStringEscaped, lcScan_inStringEscaped]; exact ih _
+    | lineComment =>
+      simp only [List.cons_append]; rw [lcScan_lineComment, lcScan_lineComment]
+      split <;> exact ih _
+    | blockComment =>
+      simp only [List.cons_append]; rw [lcScan_blockComment, lcScan_blockComment]
+      split <;> exact ih _
+    | blockCommentStar =>
+      simp only [List.cons_append]; rw [lcScan_blockCommentStar, lcScan_blockCommentStar]
+      split
+      · exact ih _
+      · split <;> exact ih _
+
+/-- the white space in front of a token written with an offset ≥ 1: the indent level does not matter, behind any text -/
+theorem lcScan_ws_indent (X r : List Char) (i j n : Nat) (hn : n ≠ 0) (s : LcState) :
+    lcScan s (X ++ (addWhitespace i n ++ r)) = lcScan s (X ++ (addWhitespace j n ++ r)) := by
+  obtain ⟨k, rfl⟩ : ∃ k, n = k + 1 := ⟨n - 1, by omega⟩
+  have e : ∀ ind, addWhitespace ind (k + 1) ++ r =
+      '\n' :: (List.replicate k '\n' ++ ((List.replicate ind [' ', ' ']).flatten ++ r)) := by
+    intro ind
+    simp [addWhitespace, List.replicate_succ]
+  rw [e i, e j]
+  refine lcScan_congr_nl (fun s' => ?_) _ X (Nat.le_refl _) s
+  rw [lcScan_nl, lcScan_nl, lcScan_afterNl_nls, lcScan_afterNl_nls, lcScan_afterNl_blanks _ _ _ (mem_indentBlanks i),
+    lcScan_afterNl_blanks _ _ _ (mem_indentBlanks j)]
+
 /-! ## chunks -/
 
-/-- the text one tagged item contributes: leading line breaks, optional `/begin`, tag, body, optional `/end` tag -/
+/-- the text one tagged item contributes: leading line breaks, optional `/begin`, tag, body, optional `/end` tag
+    (behind the end offset the writer uses: `endOffOf`, i.e. 1 instead of 0 if the body ends in a `//` comment) -/
 def chunk (indent : Nat) (item : TagInfo) : List Char :=
   addWhitespace indent item.startOff ++ (if item.isBlock then "/begin ".toList else []) ++ item.tag ++ item.text ++
-    (if item.isBlock then addWhitespace indent item.endOff ++ "/end ".toList ++ item.tag else [])
+    (if item.isBlock then addWhitespace indent (endOffOf item.endOff item.text) ++ "/end ".toList ++ item.tag else [])
 
 /-- items that the plain-concatenation reading applies to: no comments and no position restrictions in the group
     (comments only change the line breaks of their successor, restricted items are permuted among their own slots) -/
